@@ -22,6 +22,12 @@ from ._random_state import RandomState
 def _choice_rng(state_data, a, size, replace, p, axis, shuffle):
     from ._expr import _rng_from_bitgen
 
+    if isinstance(state_data, tuple):
+        # (bit generator class, SeedSequence): build a fresh bit generator per execution.
+        # A live BitGenerator in the graph is advanced in place by every run of the task
+        # under a local scheduler, so recomputing the array gave different values.
+        bitgen_cls, seed_seq = state_data
+        state_data = bitgen_cls(seed_seq)
     state = _rng_from_bitgen(state_data)
     return state.choice(a, size=size, replace=replace, p=p, axis=axis, shuffle=shuffle)
 
@@ -115,9 +121,28 @@ class RandomChoice(IO):
         "p_expr",  # expression for p (or None)
         "axis",
         "shuffle",
+        "_seeds",  # per-block seeds, drawn once at construction (see ``state_data``)
     ]
-    _defaults = {"axis": None, "shuffle": None}
+    _defaults = {"axis": None, "shuffle": None, "_seeds": None}
     _funcname = "da.random.choice-"
+
+    @cached_property
+    def _name(self):
+        # Draw the per-block seeds now.  Drawing advances the generator, so it must
+        # happen when the user creates the array (a second ``choice`` with the same
+        # arguments is a different array, and the values must not depend on which
+        # array's graph happens to be built first); the seeds then live in the
+        # ``_seeds`` operand, so copies re-instantiated by the optimizer or restored
+        # from a pickle are the same realization, and they make the name unique.
+        self.state_data
+        return f"{self._funcname}-{self.deterministic_token}"
+
+    def _seeds_once(self, draw):
+        seeds = self.operand("_seeds")
+        if seeds is None:
+            seeds = draw()
+            self.operands[self._parameters.index("_seeds")] = seeds
+        return seeds
 
     @cached_property
     def chunks(self):
@@ -133,13 +158,16 @@ class RandomChoice(IO):
         # array (mirrors _expr.Random._info). Derive a 128-bit entropy per block
         # from the root RNG via one SeedSequence — deterministic from the root,
         # so recompute is stable — and let the worker rebuild the state.
-        root_entropy = int.from_bytes(self._state.bytes(16), "little")
-        words = (
-            np.random.SeedSequence(root_entropy)
-            .generate_state(len(self.sizes) * 4, dtype=np.uint32)
-            .reshape(len(self.sizes), 4)
-        )
-        return [int.from_bytes(w.tobytes(), "little") for w in words]
+        def draw():
+            root_entropy = int.from_bytes(self._state.bytes(16), "little")
+            words = (
+                np.random.SeedSequence(root_entropy)
+                .generate_state(len(self.sizes) * 4, dtype=np.uint32)
+                .reshape(len(self.sizes), 4)
+            )
+            return [int.from_bytes(w.tobytes(), "little") for w in words]
+
+        return self._seeds_once(draw)
 
     @cached_property
     def _meta(self):
@@ -172,11 +200,13 @@ class RandomChoice(IO):
 
 class RandomChoiceGenerator(RandomChoice):
     # Keep axis and shuffle as required parameters (no defaults)
-    _defaults = {}
+    _defaults = {"_seeds": None}
 
     @cached_property
     def state_data(self):
-        return _spawn_bitgens(self._state, len(self.sizes))
+        return self._seeds_once(
+            lambda: [(type(b), b._seed_seq) for b in _spawn_bitgens(self._state, len(self.sizes))]
+        )
 
     def _layer(self) -> dict:
         keys = product([self._name], *[range(len(bd)) for bd in self.chunks])
